@@ -69,6 +69,8 @@ class Trig:
             if acc is None: acc = (sv, cv)
             else: acc = (acc[0] * cv + acc[1] * sv, acc[1] * cv - acc[0] * sv)
         if acc is None: return (z3.RealVal(0), z3.RealVal(1))
+        if s.algebraic is not None and hasattr(s.algebraic, 'simplify_pair'):
+            return s.algebraic.simplify_pair(t, acc[0], acc[1])
         return (z3.simplify(acc[0]), z3.simplify(acc[1]))
     def sqrt(s, x):
         if s.algebraic is not None:
